@@ -142,7 +142,7 @@ def generate(rng, tier):
                 d = rng.choice(["PT1H", "PT90M", "P1D", "P1DT1H30M", "PT0,5H", "PT1.5S", "P1W", "PT36H", "-PT30M", "P2DT12H",
                                 "PT%dS" % rng.randint(0, 10**6), "PT%dM%dS" % (rng.randint(0, 999), rng.randint(0, 59)),
                                 "P1Y", "P1M", "P1Y2M3DT4H"])
-                cases.append(Case(["cli_total %s %s" % (rng.choice("HMShms"), enc(d))], ["as-total-single"], fam="P"))
+                cases.append(Case(["cli_total %s %s" % (rng.choice("HMShms"), enc(d))], ["as-total-single"], fam="T"))
             elif k == "stdin":
                 t1, t2 = rand_text(rng, md, big=False), rand_text(rng, md, big=False)
                 items = rng.choice([[t1], [t1, t2], ["R3/" + t1 + "/P1D"]])
@@ -215,7 +215,7 @@ def model_lines(c):
 
 def corr(c):
     """model vs implementation on the command line's own output"""
-    if not c.model or c.meta["fam"] in ("E", "Q", "O", "F", "P", "A", "I"):
+    if not c.model or c.meta["fam"] in ("E", "Q", "O", "F", "P", "A", "I", "T"):
         return []
     m = c.model[0]
     cli = c.impl[0].split(" ; ", 1)[0].strip()
@@ -246,6 +246,11 @@ def judge(c):
         if out != c.impl[1]:
             res.append(("violation", "%s prints %s but %s prints %s (the short and alternative option spellings must select what the long ones select)" % (
                 c.lines[0], out, c.lines[1], c.impl[1])))
+        return res
+    if fam == "T":
+        cli, verdict = [x.strip() for x in out.split(" ; ", 1)]
+        if verdict.startswith("NUMBAD") or (verdict.startswith("LIBERR") and not cli.startswith("EXIT")):
+            res.append(("violation", "%s: prints %s; %s (--as-total of a duration is its length in that unit)" % (c.lines[0], cli, verdict)))
         return res
     if fam == "I":
         a, b = [x.strip() for x in out.split(" ; ", 1)]
